@@ -25,9 +25,9 @@ RepRests == {AllG, [AllG EXCEPT !["realm"] = "Tsent"], [AllG EXCEPT !["uri"] = "
 Mk(c, o, a, p, nc, oc, rs) == [ch |-> c, o |-> o, from |-> a, pw |-> p, mode |-> "auth", nonce |-> nc, opaque |-> oc, rest |-> rs]
 Resps == {Mk(c, o, a, p, nc, oc, rs) : c \in 1..Len(issued), o \in 1..Len(issued), a \in Addrs, p \in {"p1"},
                                        nc \in NonceClasses, oc \in OpaqueClasses, rs \in RepRests}
-SomeResps == {Mk(c, c, a, p, "G", "G", rs) : c \in 1..Len(issued), a \in Addrs, p \in Passwords, rs \in Rests}
-             \cup {Mk(c, o, a, "p1", nc, oc, AllG) : c \in 1..Len(issued), o \in 1..Len(issued), a \in Addrs,
-                                                    nc \in {"G", "other"}, oc \in OpaqueClasses}
+SomeResps == {Mk(c, c, issued[c].a, "p1", "G", "G", rs) : c \in 1..Len(issued), rs \in Rests}
+             \cup {Mk(c, c, a, p, "G", oc, AllG) : c \in 1..Len(issued), a \in Addrs, p \in Passwords, oc \in OpaqueClasses \ {"other"}}
+             \cup {Mk(c, o, a, "p1", nc, "other", AllG) : c \in 1..Len(issued), o \in 1..Len(issued), a \in Addrs, nc \in {"G", "other"}}
              \cup {Mk(c, c, a, "p1", nc, "G", AllG) : c \in 1..Len(issued), a \in Addrs, nc \in NonceClasses}
 
 Init == \E L \in {0, 1}, al \in {"md5", "sha"} : InitWith([L |-> L, algo |-> al])
@@ -39,5 +39,5 @@ Spec == Init /\ [][MCNext]_vars
 Equiv == \A r \in Resps : \A p \in Passwords : Alg(r, p) = Decl(r, p)
 (* the accepting case is reachable and unique per response: at most one password is accepted *)
 OnePassword == \A r \in Resps : Cardinality({p \in Passwords : Decl(r, p)}) <= 1
-View == <<cfg, now, issued, last>>
+View == <<cfg, now, issued>>       \* `last` (the observable) is not part of the explored state
 =============================================================================
